@@ -42,6 +42,8 @@ type OblReport struct {
 	Query  string `json:"query_file,omitempty"`
 	Model  string `json:"model,omitempty"`
 	Output string `json:"solver_output,omitempty"`
+	Replay       *ReplaySpec `json:"replay_spec,omitempty"`
+	ReplayWhyNot string      `json:"replay_why_not,omitempty"`
 }
 
 type Report struct {
@@ -247,6 +249,7 @@ type Options struct {
 	Dump    string
 	Overlay string
 	Tags    string
+	NoReplay bool
 }
 
 func runGovc(opt Options) (*Report, error) {
@@ -500,6 +503,9 @@ func runGovc(opt Options) (*Report, error) {
 		case o.Res.Result == "sat":
 			or.Result = "refuted"
 			or.Model = o.Res.Model
+			if !opt.NoReplay {
+				or.Replay, or.ReplayWhyNot = buildReplay(o, work, len(rep.Obligations), opt.Repo)
+			}
 		case o.Res.Result == "solver-error":
 			or.Result = "solver-error"
 			or.Output = o.Res.Output
